@@ -59,12 +59,40 @@ def gen_lean():
     dts = re.findall(r"TypeCode\.([A-Z0-9]+)\s*:\s*\"([^\"]+)\"", m2.group(1))
     if not codes or not dts:
         raise ValueError("could not extract TypeCode tables")
+    # encoding classes: annotations, kind tables, StringArray's literal keys
+    annots = []
+    for m3 in re.finditer(r"^class (\w+Encoding)\(Encoding\):(.*?)(?=^class |^_encoding_classes\b)", src, re.S | re.M):
+        names = re.findall(r"^    ([a-z_][a-z0-9_]*): \.\.\.", m3.group(2), re.M)
+        annots.append((m3.group(1), names))
+    mk = re.search(r"^_encoding_classes_kinds\s*=\s*\{(.*?)\}", src, re.S | re.M)
+    mc = re.search(r"^_encoding_classes\s*=\s*\{(.*?)\}", src, re.S | re.M)
+    if not annots or not mk or not mc:
+        raise ValueError("encoding classes / kind tables not found in encoding.pyx")
+    kinds = re.findall(r"\"(\w+)\"\s*:\s*\"(\w+)\"", mk.group(1))
+    classes = re.findall(r"\"(\w+)\"\s*:\s*(\w+)", mc.group(1))
+    msa = re.search(r"^class StringArrayEncoding\(Encoding\):(.*?)(?=^_encoding_classes\b)", src, re.S | re.M)
+    mser = re.search(r"    def serialize\(self\):(.*?)\n    def ", msa.group(1), re.S)
+    mdes = re.search(r"    def deserialize\(content\):(.*?)\n    def ", msa.group(1), re.S)
+    sa_written = re.findall(r"^\s+\"(\w+)\"\s*:", mser.group(1), re.M)
+    sa_read = sorted(set(re.findall(r"content\[\"(\w+)\"\]", mdes.group(1))))
+    if len(annots) != len(kinds) or not sa_written or not sa_read:
+        raise ValueError("could not extract the encoding serialisation tables")
     body = ["/- REGENERATED on every run by harness/props/c05.py from structure/io/pdbx/encoding.pyx. Do not edit. -/",
             "namespace BiotiteModel.Gen.C05",
             "/-- `TypeCode` members: (name, code). -/",
             "def typeCodes : List (String × Nat) := [" + ", ".join(f'("{n}", {c})' for n, c in codes) + "]",
             "/-- `_TYPE_CODE_TO_DTYPE`: (member name, numpy dtype string). -/",
             "def typeCodeToDtype : List (String × String) := [" + ", ".join(f'("{n}", "{d}")' for n, d in dts) + "]",
+            "/-- parameter names each encoding class declares (`__annotations__`, in order) — what `Encoding.serialize` writes. -/",
+            "def encodingParams : List (String × List String) := [" + ", ".join(
+                f'("{c}", [' + ", ".join(f'"{a}"' for a in ans) + "])" for c, ans in annots) + "]",
+            "/-- `_encoding_classes_kinds`: class name → kind. -/",
+            "def encodingKinds : List (String × String) := [" + ", ".join(f'("{c}", "{k}")' for c, k in kinds) + "]",
+            "/-- `_encoding_classes`: kind → class name. -/",
+            "def encodingClasses : List (String × String) := [" + ", ".join(f'("{k}", "{c}")' for k, c in classes) + "]",
+            "/-- keys `StringArrayEncoding.serialize` writes / `StringArrayEncoding.deserialize` reads (it does not use the name maps). -/",
+            "def stringArrayWritten : List String := [" + ", ".join(f'"{k}"' for k in sa_written) + "]",
+            "def stringArrayRead : List String := [" + ", ".join(f'"{k}"' for k in sa_read) + "]",
             "end BiotiteModel.Gen.C05", ""]
     return {"BiotiteModel/Gen/C05.lean": "\n".join(body)}
 
@@ -90,7 +118,7 @@ def _values(rng, t, n):
 
 def cases(rng, tier):
     for gen in (int_cases, ext_cases, float_cases, smallest_cases, column_cases, interval32_cases, decimals_cases, reuse_cases,
-                strtable_cases, level_cases, params_cases, rewrite_cases):
+                strtable_cases, level_cases, params_cases, rewrite_cases, names_cases, encser_cases):
         for c in gen(rng, tier):
             rt = c.get("rt")
             if rt and rt.get("enc") in ("rle", "delta", "pack", "bytes", "compress_int", "compress_float"):
@@ -186,6 +214,25 @@ def rewrite_cases(rng, tier):
     for _ in range(4 if tier == "quick" else 20):
         yield {"kind": "rewrite", "rt": {"enc": "rewrite", "n": rng.randint(2, 9), "frames": rng.randint(2, 3), "seed": rng.randint(0, 10 ** 9),
                                          "through": rng.choice(["file", "file", "column", "data", "category"])}}
+
+
+
+def names_cases(rng, tier):
+    """`_snake_to_camel_case` / `_camel_to_snake_case` op by op: the declared parameter names and arbitrary ASCII names."""
+    declared = ["type", "factor", "src_type", "min", "max", "num_steps", "src_size", "origin", "byte_count", "is_unsigned",
+                "strings", "data_encoding", "offset_encoding"]
+    for n in declared:
+        yield {"kind": "names", "ops": [f"camel {_s(n)}", f"snake {_s(n)}"], "rt": {"enc": "names", "name": n}}
+    for _ in range(25 if tier == "quick" else 300):
+        n = "".join(rng.choice("abcxyzABZ019__") for _ in range(rng.randint(0, 9)))
+        yield {"kind": "names", "ops": [f"camel {_s(n)}", f"snake {_s(n)}"]}
+
+
+def encser_cases(rng, tier):
+    """Every encoding class with explicit or data-determined parameters: what `serialize()` writes, `deserialize_encoding`
+    reads back as an equal encoding (directly and through msgpack), which decodes the same bytes to the same array."""
+    for _ in range(14 if tier == "quick" else 120):
+        yield {"kind": "encser", "rt": {"enc": "encser", "seed": rng.randint(0, 10 ** 9), "explicit": rng.random() < 0.5}}
 
 
 
@@ -511,6 +558,10 @@ def run_impl(case):
         elif w[0] == "string_enc_tbl":
             tbl, ss = _unstrs(w[1]), _unstrs(w[2])
             out.append(_fmt(lambda: "ok " + _ints(E.StringArrayEncoding(strings=np.array(tbl, dtype="U"), data_encoding=[]).encode(np.array(ss, dtype="U")))))
+        elif w[0] == "camel":
+            out.append(_fmt(lambda: "ok " + _s(E._snake_to_camel_case(_unstrs(w[1])[0]))))
+        elif w[0] == "snake":
+            out.append(_fmt(lambda: "ok " + _s(E._camel_to_snake_case(_unstrs(w[1])[0]))))
         elif w[0] == "string_dec":
             tbl, idx = _unstrs(w[1]), _parse(w[2])
             out.append(_fmt(lambda: "ok " + _strs([str(x) for x in E.StringArrayEncoding(strings=np.array(tbl, dtype="U"), data_encoding=[]).decode(np.array(idx, dtype=np.int32))])))
@@ -809,6 +860,16 @@ def oracle(case):
             if (on and abs(d) > slack) or not (-slack <= d < step + slack):
                 v.append(("C05/interval/precision", f"IntervalQuantization({mn},{mx},{n}) {rt['ft']} {float(a)!r} -> {float(b)!r} (step {step})"))
                 break
+    elif kind == "names":
+        n = rt["name"]
+        try:
+            back = E._camel_to_snake_case(E._snake_to_camel_case(n))
+        except Exception as e:  # noqa: BLE001
+            back = type(e).__name__
+        if back != n:
+            v.append(("C05/serialize/parameter-name-roundtrip", f"parameter {n!r} is written as {E._snake_to_camel_case(n)!r} and read back as {back!r}"))
+    elif kind == "encser":
+        v += _encser_check(rt)
     elif kind == "strtable":
         v += _strtable_check(rt)
     elif kind == "level":
@@ -1071,6 +1132,72 @@ def _rewrite_check(rt):
 
 
 
+def _encser_check(rt):
+    import random
+
+    import msgpack
+    import numpy as np
+    from biotite.structure.io.pdbx import bcif
+    from biotite.structure.io.pdbx import encoding as E
+    r = random.Random(rt["seed"])
+    n = r.randint(1, 12)
+    ex = rt["explicit"]
+    ints = np.array(sorted(r.randint(0, 60) for _ in range(n)), dtype=r.choice([np.int32, np.int16, np.uint8, np.int64]))
+    which = r.choice(["bytes", "fixed", "interval", "rle", "delta", "pack", "string", "delta+rle+pack", "string-nested"])
+    tc = E.TypeCode.from_dtype(ints.dtype)
+    if which == "bytes":
+        arr, encs = ints, [E.ByteArrayEncoding(type=tc if ex else None)]
+    elif which == "fixed":
+        arr = np.array([r.randint(-500, 500) / 100 for _ in range(n)], dtype=r.choice([np.float32, np.float64]))
+        encs = [E.FixedPointEncoding(factor=r.choice([100, 1000, 2.5]), src_type=E.TypeCode.from_dtype(arr.dtype) if ex else None), E.ByteArrayEncoding()]
+    elif which == "interval":
+        arr = np.array([r.randint(0, 40) / 4 for _ in range(n)], dtype=r.choice([np.float32, np.float64]))
+        encs = [E.IntervalQuantizationEncoding(min=0.0, max=10.0, num_steps=41, src_type=E.TypeCode.from_dtype(arr.dtype) if ex else None), E.ByteArrayEncoding()]
+    elif which == "rle":
+        arr, encs = ints, [E.RunLengthEncoding(src_size=n if ex else None, src_type=tc if ex else None), E.ByteArrayEncoding()]
+    elif which == "delta":
+        arr, encs = ints, [E.DeltaEncoding(src_type=tc if ex else None, origin=int(ints[0]) if ex else None), E.ByteArrayEncoding()]
+    elif which == "pack":
+        arr = ints.astype(np.int32)
+        encs = [E.IntegerPackingEncoding(byte_count=r.choice([1, 2]), src_size=n if ex else None, is_unsigned=True if ex else None), E.ByteArrayEncoding()]
+    elif which == "delta+rle+pack":
+        arr = ints.astype(np.int32)
+        encs = [E.DeltaEncoding(), E.RunLengthEncoding(), E.IntegerPackingEncoding(byte_count=r.choice([1, 2])), E.ByteArrayEncoding()]
+    else:
+        arr = np.array([r.choice(["A", "BB", "", "x y", "HOH", "\u00e9"]) for _ in range(n)], dtype="U")
+        if which == "string":
+            encs = [E.StringArrayEncoding(strings=np.array(sorted(set(arr.tolist())), dtype="U") if ex else None)]
+        else:
+            encs = [E.StringArrayEncoding(data_encoding=[E.RunLengthEncoding(), E.ByteArrayEncoding()],
+                                          offset_encoding=[E.DeltaEncoding(), E.IntegerPackingEncoding(1), E.ByteArrayEncoding()])]
+    try:
+        data = bcif.BinaryCIFData(arr, encs)
+        ser = data.serialize()
+    except Exception:
+        return []     # this combination is refused: nothing serialised
+    out = []
+    label = f"{which} ({'explicit' if ex else 'determined'} parameters) on {arr.tolist()[:8]}"
+    try:
+        for e in data.encoding:
+            back = E.deserialize_encoding(e.serialize())
+            if back != e or type(back) is not type(e):
+                out.append(("C05/serialize/encoding-not-equal", f"{label}: {e!r} serialises to {e.serialize()!r} and reads back as {back!r}"))
+        wire = msgpack.unpackb(msgpack.packb(ser, use_bin_type=True, default=bcif._encode_numpy), use_list=True, raw=False)
+        got = bcif.BinaryCIFData.deserialize(wire)
+        if got.encoding != data.encoding:
+            out.append(("C05/serialize/encoding-not-equal-through-msgpack", f"{label}: wrote {data.encoding!r}, read {got.encoding!r}"))
+        a, b = got.array.tolist(), arr.tolist()
+        exact = arr.dtype.kind in "iuU"
+        if len(a) != len(b) or any((x != y) if exact else abs(x - y) > 0.26 for x, y in zip(a, b)):
+            out.append(("C05/serialize/data-roundtrip", f"{label}: read back {a[:8]}"))
+        if got != data and exact:
+            out.append(("C05/serialize/data-not-equal", f"{label}: BinaryCIFData read back compares unequal to the one written"))
+    except Exception as e:  # noqa: BLE001
+        out.append(("C05/serialize/deserialize-fails", f"{label}: {type(e).__name__}: {e}"))
+    return out
+
+
+
 def _file_roundtrip(rt):
     """BinaryCIFFile with int/float/string columns and masks: write -> read (plain and compressed) equal."""
     import io
@@ -1124,7 +1251,7 @@ def _file_roundtrip(rt):
 
 
 def nontrivial(case, impl_out):
-    if case["kind"].split("/")[0] in ("file", "column", "interval32", "decimals", "reuse", "u64", "strtable", "level", "params", "rewrite"):
+    if case["kind"].split("/")[0] in ("file", "column", "interval32", "decimals", "reuse", "u64", "strtable", "level", "params", "rewrite", "names", "encser"):
         return True
     data = (case.get("rt") or {}).get("data")
     if data is not None and len(set(data)) >= 2:
